@@ -513,7 +513,12 @@ def run_pipeline(
 
         # If debug is enabled, add intermediate data to the `DataTree`.
         if debug:
-            datatree_intermediate: xr.DataTree = detector.intermediate
+            # Note: no intermediate result exists when no model has been executed
+            datatree_intermediate: xr.DataTree = (
+                detector.intermediate
+                if detector._intermediate is not None
+                else xr.DataTree()
+            )
 
             # Remove temporary data_tree '/last' from 'datatree_intermediate'
             dct["/intermediate"] = datatree_intermediate.drop_nodes(
